@@ -11,3 +11,16 @@ open Frp.C07
 #print axioms pluginAuth_iff
 #print axioms holdsOn_sound
 #print axioms model_holdsOn
+#print axioms serveWire_sound
+#print axioms getVhost_prefix
+#print axioms serve_forward_prefix
+#print axioms pluginServeHTTP_reaches
+#print axioms pluginHandleConnect_reaches
+#print axioms pluginServeConn_sound
+#print axioms pluginHandle_sound
+#print axioms pluginHandle_refuses
+#print axioms pluginHandle_first_connect_refused
+#print axioms holdsOnWire_sound
+#print axioms model_holdsOnWire
+#print axioms plHoldsOn_sound
+#print axioms model_plHoldsOn
